@@ -72,7 +72,7 @@ def encoder_class(callee):
     `<T as Encodable>::encode`"""
     if callee.fn == "alloy_rlp::encode" and callee.targs:
         return class_of_type(callee.targs[0]["s"])
-    if callee.name == "encode" and (callee.trait or "").endswith("alloy_rlp::Encodable") and callee.self_ty:
+    if callee.name in ("encode", "length") and (callee.trait or "").endswith("alloy_rlp::Encodable") and callee.self_ty:
         return class_of_type(callee.self_ty["s"])
     return ("UNKNOWN", callee.full)
 
